@@ -210,6 +210,80 @@ def gen_decrease(rng, N):
     return {"kind": "sp", "gen": "decrease", "N": N, "nbrs": nbrs, "w": w, "scale": 0, "lm": []}
 
 
+def sq2(p, q):
+    return sum((a - b) ** 2 for a, b in zip(p, q))
+
+
+TABLE_KINDS = ("sqeuclid", "sqeuclid", "sq_asym", "l1_asym", "random", "random_sym", "l1")
+
+
+def dissimilarity_table(rng, pts, kind):
+    """legal distance callbacks that are NOT metrics (wave 4): squared Euclidean (symmetric, no triangle inequality:
+    the shortest path through a complete graph is shorter than the direct edge), the same with a direction-dependent
+    surcharge (asymmetric), an asymmetric quasi-metric (L1 + uphill surcharge), arbitrary tables; "l1" = a metric."""
+    N = len(pts)
+    h = [rng.randint(0, 9) for _ in range(N)]
+    c = rng.choice([1, 2, 5])
+    T = [[0] * N for _ in range(N)]
+    for i in range(N):
+        for j in range(N):
+            if i == j:
+                continue
+            if kind == "sqeuclid":
+                T[i][j] = sq2(pts[i], pts[j])
+            elif kind == "sq_asym":
+                T[i][j] = sq2(pts[i], pts[j]) + c * max(0, h[j] - h[i])
+            elif kind == "l1_asym":
+                T[i][j] = l1(pts[i], pts[j]) + c * max(0, h[j] - h[i])
+            elif kind == "random":
+                T[i][j] = rng.randint(1, 60)
+            elif kind == "random_sym":
+                T[i][j] = T[j][i] if j < i else rng.randint(1, 60)
+            else:
+                T[i][j] = l1(pts[i], pts[j])
+    return T
+
+
+def gen_complete(rng, N, missing=0, kind=None):
+    """the special configuration k = N-1 (complete neighbourhood graph; missing=1: k = N-2, the nearest incomplete
+    one) TOGETHER with dissimilarities that are not metrics.  Neighbour lists in the orders the three search
+    methods produce (nearest first, farthest first, nth_element-like arbitrary, by index)."""
+    kind = kind or rng.choice(TABLE_KINDS)
+    pts = gen_points(rng, N, rng.choice([1, 2, 2, 3]), rng.choice([4, 8, 30]), clusters=rng.random() < 0.2)
+    w = dissimilarity_table(rng, pts, kind)
+    order = rng.choice(["nearest", "farthest", "random", "index"])
+    K = max(0, N - 1 - missing)
+    nbrs = []
+    for i in range(N):
+        others = [j for j in range(N) if j != i]
+        rng.shuffle(others)
+        others.sort(key=lambda j: w[i][j])
+        row = others[:K]                      # k nearest (ties at random)
+        if order == "farthest":
+            row.reverse()
+        elif order == "random":
+            rng.shuffle(row)
+        elif order == "index":
+            row.sort()
+        nbrs.append(row)
+    c = {"kind": "sp", "gen": "complete" if not missing else "complete-1", "N": N, "nbrs": nbrs, "w": w, "scale": 0,
+         "lm": [], "table": kind, "order": order}
+    if kind == "l1":
+        c["metric"] = True
+    return c
+
+
+def gen_complete_cases(rng, n, sizes=(2, 3, 3, 4, 4, 5, 6, 8, 8, 12, 16, 24)):
+    out = []
+    for i in range(n):
+        c = gen_complete(rng, rng.choice(sizes), missing=1 if i % 4 == 3 else 0)
+        decorate(rng, c)
+        c.pop("ragged", None)
+        c["nbrs"] = [r[:len(c["nbrs"][0])] for r in c["nbrs"]]
+        out.append(c)
+    return out
+
+
 def add_landmarks(rng, case):
     N = case["N"]
     mode = rng.random()
@@ -517,6 +591,15 @@ def boundary_sp_cases():
     # an improvement that is tiny relative to the lengths involved: 0->1 costs 2^40 + 1, 0->2->1 costs 2^40
     out.append({"kind": "sp", "gen": "boundary", "N": 3, "nbrs": [[1, 2], [0, 0], [1, 1]],
                 "w": [[0, (1 << 40) + 1, 1 << 39], [1, 0, 1], [1, 1 << 39, 0]], "scale": 0, "lm": [0, 1]})
+    # complete graph (k = N-1) with a NON-METRIC callback: squared distances of 3 / 4 points on a line — the direct
+    # edge 0->2 costs 4, the path 0->1->2 costs 2 (a "complete graph => geodesic = direct distance" shortcut is wrong)
+    out.append({"kind": "sp", "gen": "boundary", "N": 3, "nbrs": [[1, 2], [0, 2], [1, 0]],
+                "w": [[0, 1, 4], [1, 0, 1], [4, 1, 0]], "scale": 0, "lm": [0, 2]})
+    out.append({"kind": "sp", "gen": "boundary", "N": 4, "nbrs": [[3, 2, 1], [3, 0, 2], [0, 3, 1], [0, 1, 2]],
+                "w": [[0, 1, 4, 9], [1, 0, 1, 4], [4, 1, 0, 1], [9, 4, 1, 0]], "scale": 0, "lm": [3, 0, 1, 2]})
+    # the same with an asymmetric table: 0->2 directly 7, 0->1->2 costs 2, 2->0 directly 1
+    out.append({"kind": "sp", "gen": "boundary", "N": 3, "nbrs": [[2, 1], [2, 0], [0, 1]],
+                "w": [[0, 1, 7], [5, 0, 1], [1, 9, 0]], "scale": 0, "lm": [2, 0, 1]})
     # every one of them again at the two ends of the magnitude range and where weights straddle 1e-12
     for c in list(out):
         for e in (-70, -40, 70):
@@ -1095,6 +1178,34 @@ def gen_iso_cases(rng, n_exact, n_tol, n_liso, big=False):
     return cases
 
 
+def gen_iso_special(rng, n_exact, n_tol):
+    """embed() at the special configurations of the neighbourhood graph — k = N-1 requested, k = N-2, k reaching N-1
+    by the connectivity doubling (a lone outlier nobody has among its nearest) — TOGETHER with distance callbacks that
+    are legal but not metrics (squared Euclidean, asymmetric, arbitrary tables), every neighbour-search method on the
+    symmetric ones.  Judged like every embed() case: classical MDS of the MODEL geodesics of the graph tapkee built."""
+    cases = []
+    for i in range(n_exact + n_tol):
+        exact = i < n_exact
+        N = rng.choice([4, 8, 8, 16, 16, 32] if exact else [5, 6, 7, 11, 13])
+        kind = rng.choice(TABLE_KINDS)
+        dim = rng.choice([1, 2, 2, 3])
+        pts = gen_points(rng, N, dim, rng.choice([6, 12, 40]), clusters=rng.random() < 0.2)
+        mode = rng.choice(["N-1", "N-1", "N-1", "N-2", "outlier"])
+        if mode == "outlier" and N >= 8:
+            pts[rng.randrange(N)] = [1000 + rng.randrange(50) for _ in range(dim)]
+            k = 3
+        else:
+            k = N - 1 if mode != "N-2" else max(3, N - 2)
+        T = dissimilarity_table(rng, pts, kind)
+        sym = all(T[a][b] == T[b][a] for a in range(N) for b in range(a))
+        cases.append({"kind": "iso", "meth": "iso", "gen": "iso:special " + mode,
+                      "nm": rng.choice(["brute", "vptree", "covertree"]) if sym else "brute",
+                      "em": "dense", "k": k, "d": rng.randint(1, max(1, min(2, N - 2))),
+                      "ratio": 1.0, "seed": rng.randrange(1 << 30), "N": N, "T": T, "exact": exact,
+                      "threads": rng.choice(THREADS), "mag": iso_mag(rng), "table": kind})
+    return cases
+
+
 def iso_line(c):
     t = ["ISO", str(c["threads"]), c["meth"], c["nm"], c["em"], str(c["k"]), str(c["d"]), repr(float(c["ratio"])),
          str(c["seed"]), str(c["N"])]
@@ -1168,21 +1279,40 @@ def evaluate_iso(ctx, exes, cases, stats):
             n_eval += 1
             N = c["N"]
             tags = r["tags"]
-            if "nbrs" not in tags or "geo" not in tags or "emb" not in tags:
-                # the recording macros saw nothing (embed() restructured?): the stage can no longer be observed —
-                # that is "no longer shown", not a failing input
-                ctx.mismatch(strip(c), "embed() did not go through compute_shortest_distances_matrix / "
-                                       "eigendecomposition_via as wrapped by the harness (%s): tags %s" % (tag, sorted(tags)))
+            if "emb" not in tags:
+                ctx.mismatch(strip(c), "embed() returned without an embedding in the harness output (%s): tags %s"
+                             % (tag, sorted(tags)))
                 continue
-            nr, K, nt = tags["nbrs"]
-            try:
-                nb = [int(x) for x in nt]
-            except ValueError:
-                nb = None
-            if nb is None or nr != N or len(nb) != N * K or any(v < 0 or v >= N for v in nb):
+            # the neighbourhood graph embed() works on: what find_neighbors_with returned (recorded independently of
+            # what embed() does with it), else what the geodesic routine was given, else — a request for k >= N-1
+            # determines it — the complete graph
+            nbrs, nsrc, malformed = None, None, False
+            for key in ("nbrs0", "nbrs"):
+                if key in tags:
+                    nr, K, nt = tags[key]
+                    try:
+                        nb = [int(x) for x in nt]
+                    except ValueError:
+                        nb = None
+                    if nb is None or nr != N or len(nb) != N * K or any(v < 0 or v >= N for v in nb):
+                        malformed = True
+                        continue
+                    nbrs, nsrc = [nb[i * K:(i + 1) * K] for i in range(N)], key
+                    break
+            if nbrs is None and (malformed or any(t.endswith("-ragged") for t in tags)):
                 ctx.note("neighbour lists returned by find_neighbors are malformed (%s): property C02/C01" % tag)
                 continue
-            nbrs = [nb[i * K:(i + 1) * K] for i in range(N)]
+            if nbrs is None and c["k"] >= N - 1:
+                nbrs, nsrc = [[j for j in range(N) if j != i] for i in range(N)], "k=N-1"
+            if nbrs is None:
+                ctx.mismatch(strip(c), "embed() went neither through find_neighbors_with nor through "
+                                       "compute_shortest_distances_matrix as wrapped by the harness (%s): the "
+                                       "neighbourhood graph cannot be observed; tags %s" % (tag, sorted(tags)))
+                continue
+            stats["iso_graph_source"][nsrc] = stats["iso_graph_source"].get(nsrc, 0) + 1
+            K = len(nbrs[0]) if nbrs else 0
+            if K == N - 1:
+                stats["iso_complete_graph"] += 1
             lm = []
             if c["meth"] == "liso":
                 try:
@@ -1191,80 +1321,119 @@ def evaluate_iso(ctx, exes, cases, stats):
                     lm = []
             mag = c.get("mag", 0)
             g = {"kind": "sp", "N": N, "nbrs": nbrs, "w": c["T"], "scale": -mag, "lm": lm}
-            rows = len(lm) if c["meth"] == "liso" else N
-            geo, prob = parse_obs(tags["geo"], -mag, rows, N)
-            info = {"case": c, "graph": g, "geo": geo, "tags": tags, "build": b_run, "tag": tag}
-            if geo is None or prob:
-                ctx.violation(dict(strip(c), captured_neighbors=nbrs, captured_landmarks=lm),
-                              "geodesics computed inside embed() are malformed (%s): %s" % (tag, prob))
-                continue
+            info = {"case": c, "graph": g, "geo": None, "tags": tags, "build": b_run, "tag": tag}
+            extra = dict(strip(c), captured_neighbors=nbrs, captured_landmarks=lm)
             if c["meth"] == "liso":
-                mlines.append("C " + " ".join(graph_tokens(g, True)) + " O " + " ".join(obs_tokens(geo)))
-            else:
-                mlines.append("C " + " ".join(graph_tokens(g, True)) + " F " + " ".join(obs_tokens(geo)))
-            midx.append(("geo", info))
-            finite = all(x is not None for row in geo for x in row)
-            if c["meth"] == "iso" and finite and "B0" in tags:
-                B = unscale_mat(parse_float_mat(tags["B0"]), 2 * mag)     # B scales by (2^mag)^2
-                if B is None or len(B) != N or any(not math.isfinite(x) for row in B for x in row):
-                    ctx.violation(dict(strip(c), captured_neighbors=nbrs),
-                                  "matrix handed to the eigensolver is malformed / not finite (%s)" % tag)
+                # Landmark Isomap: the landmark choice is only visible through the wrapped geodesic call (its
+                # embedding stage is property C11's)
+                if "geo" not in tags or "lm" not in tags:
+                    ctx.mismatch(strip(c), "embed() did not go through compute_shortest_distances_matrix / "
+                                           "eigendecomposition_via as wrapped by the harness (%s): tags %s"
+                                 % (tag, sorted(tags)))
                     continue
-                info["B"] = B
-                gt = " ".join(str(x) for row in geo for x in row)
-                mlines.append("I %d %s" % (N, gt))
-                midx.append(("cur", info))
-                if c["exact"]:
-                    mlines.append("J %d %s B %s" % (N, gt, " ".join(frac_tok(x) for row in B for x in row)))
-                    midx.append(("mds", info))
-                eig_lines.append("EIG %d %s" % (N, " ".join(x.hex() for row in B for x in row)))
-                eig_idx.append(info)
-            elif c["meth"] == "iso" and not finite:
-                stats["iso_disconnected"] += 1
+                geo, prob = parse_obs(tags["geo"], -mag, len(lm), N)
+                if geo is None or prob:
+                    ctx.violation(extra, "geodesics computed inside embed() are malformed (%s): %s" % (tag, prob))
+                    continue
+                mlines.append("C " + " ".join(graph_tokens(g, True)) + " O " + " ".join(obs_tokens(geo)))
+                midx.append(("geo", info))
+                continue
+            # Isomap.  (1) if the geodesic call is visible: its result against the specification on that graph
+            if "geo" in tags:
+                geo, prob = parse_obs(tags["geo"], -mag, N, N)
+                if geo is None or prob:
+                    ctx.violation(extra, "geodesics computed inside embed() are malformed (%s): %s" % (tag, prob))
+                    continue
+                info["geo"] = geo
+                mlines.append("C " + " ".join(graph_tokens(g, True)) + " F " + " ".join(obs_tokens(geo)))
+                midx.append(("geo", info))
+            else:
+                stats["iso_geodesic_call_not_observed"] += 1
+            # (2) the MODEL geodesics of that graph (extracted Bellman-Ford specification) -> classical MDS of them
+            # (extracted mds_ref_exec) against the matrix handed to the eigensolver and against the embedding:
+            # independent of which internal calls embed() makes
+            B = None
+            if "B0" in tags:
+                B = unscale_mat(parse_float_mat(tags["B0"]), 2 * mag)     # B scales by (2^mag)^2
+                if B is None or len(B) != N or any(len(row) != N for row in B) or \
+                        any(not math.isfinite(x) for row in B for x in row):
+                    # (a disconnected graph legitimately gives a non-finite matrix: judged below, once the model
+                    # geodesics are known)
+                    B = "malformed"
+            info["B_obs"] = B
+            pl = "P " + " ".join(graph_tokens(g, True))
+            if isinstance(B, list) and c["exact"]:
+                pl += " B " + " ".join(frac_tok(x) for row in B for x in row)
+            mlines.append(pl)
+            midx.append(("pipe", info))
         blocks = run_model(ctx, exes.model, mlines) if mlines else []
         for (what, info), blk in zip(midx, blocks):
             c, g = info["case"], info["graph"]
+            N = c["N"]
             extra = dict(strip(c), captured_neighbors=g["nbrs"], captured_landmarks=g["lm"])
             if what == "geo":
                 ok = ("land ok" in blk) if c["meth"] == "liso" else ("full ok" in blk)
                 if not ok:
                     ctx.violation(extra, "geodesics computed inside %s embed() (%s) are not the shortest paths of the "
                                          "neighbourhood graph tapkee built" % (c["meth"], info["tag"]))
-            elif what == "mds":
-                if "mds ok" not in blk:
-                    ctx.violation(extra, "the matrix Isomap hands to the eigensolver is not -1/2 J S J of its own "
-                                         "geodesics (S = averaged squared lengths), exact comparison (%s)"
-                                  % info["tag"])
-            elif what == "cur":
-                cur = None
+            elif what == "pipe":
+                sp, mds, verdict = None, None, None
                 for line in blk:
-                    if line.startswith("cur "):
-                        p = line.split()
-                        cur = [Fraction(x) for x in p[3:]]
-                    if line.startswith("mds "):
-                        p = line.split()
-                        mds = [Fraction(x) for x in p[3:]]
-                B = [x for row in info["B"] for x in row]
-                scale = max([1.0] + [abs(x) for x in B])
-                if cur is None or len(cur) != len(B):
-                    raise vlib.BuildError("model driver I output malformed")
-                if c["exact"]:
-                    bad = [i for i, (x, y) in enumerate(zip(B, cur)) if Fraction(x) != y]
+                    if line.startswith("sp "):
+                        sp = parse_model_mat(line[3:])
+                    elif line.startswith("mds ") and line not in ("mds ok", "mds fail"):
+                        mds = [Fraction(x) for x in line.split()[3:]]
+                    elif line in ("mds ok", "mds fail"):
+                        verdict = line
+                if not isinstance(sp, list):
+                    raise vlib.BuildError("model driver P output malformed")
+                B = info["B_obs"]
+                if any(x is None for row in sp for x in row):
+                    stats["iso_disconnected"] += 1
+                    continue
+                if mds is None or len(mds) != N * N:
+                    raise vlib.BuildError("model driver P output malformed (mds)")
+                Bref = [[float(mds[i * N + j]) for j in range(N)] for i in range(N)]
+                info["B"] = Bref
+                Kg = len(g["nbrs"][0]) if g["nbrs"] else 0
+                where = "%s; neighbourhood graph with %d of %d possible neighbours per sample%s" % (
+                    info["tag"], Kg, N - 1, ", lengths in units of 2^%d" % c["mag"] if c.get("mag") else "")
+                b_bad = None
+                if B is None:
+                    ctx.mismatch(strip(c), "embed() did not hand a matrix to eigendecomposition_via as wrapped by the "
+                                           "harness (%s): only the embedding is judged; tags %s"
+                                 % (info["tag"], sorted(info["tags"])))
+                elif B == "malformed":
+                    b_bad = "the matrix handed to the eigensolver is malformed / not finite although every sample " \
+                            "reaches every other one"
                 else:
-                    bad = [i for i, (x, y) in enumerate(zip(B, cur)) if abs(x - float(y)) > 1e-9 * scale]
-                badm = [i for i, (x, y) in enumerate(zip(B, mds)) if abs(x - float(y)) > 1e-9 * scale]
-                if badm:
-                    i = badm[0]
-                    ctx.violation(extra, "the matrix Isomap hands to the eigensolver is not -1/2 J S J of its own "
-                                         "geodesics: entry (%d,%d) is %r, classical MDS has %r (%s)" % (
-                                             i // c["N"], i % c["N"], B[i], float(mds[i]), info["tag"]))
-                elif bad:
-                    i = bad[0]
-                    ctx.mismatch(extra, "matrix handed to the solver differs from the model of embed() at (%d,%d): "
-                                        "%r vs %s (%s stream)" % (i // c["N"], i % c["N"], B[i], cur[i],
-                                                                  "exact" if c["exact"] else "tolerance"))
-                stats["B_exact" if c["exact"] else "B_tolerance"] += 1
-        # tolerance stream: embedding vs top-d eigenpairs of the handed matrix
+                    flat = [x for row in B for x in row]
+                    scale = max([1.0] + [abs(x) for x in flat])
+                    if c["exact"]:
+                        bad = [i for i, (x, y) in enumerate(zip(flat, mds)) if Fraction(x) != y]
+                        if (verdict != "mds ok") != bool(bad):
+                            raise vlib.BuildError("check_mds and the entrywise comparison disagree")
+                    else:
+                        bad = [i for i, (x, y) in enumerate(zip(flat, mds)) if abs(x - float(y)) > 1e-9 * scale]
+                    if bad:
+                        i = bad[0]
+                        u, v = i // N, i % N
+                        b_bad = "the matrix Isomap hands to the eigensolver is not -1/2 J S J of the shortest-path " \
+                                "lengths of its neighbourhood graph (S = squared lengths of both directions " \
+                                "averaged; %s comparison): entry (%d,%d) is %r, classical MDS of the geodesics has " \
+                                "%r" % ("exact" if c["exact"] else "1e-9 relative", u, v, flat[i], float(mds[i]))
+                        gap = max(((c["T"][a][b2] - sp[a][b2], a, b2) for a in range(N) for b2 in range(N)
+                                   if a != b2), default=(0, 0, 0))
+                        if gap[0] > 0:
+                            b_bad += "; e.g. the shortest path %d->%d has length %s while the direct callback " \
+                                     "distance is %s" % (gap[1], gap[2], sp[gap[1]][gap[2]], c["T"][gap[1]][gap[2]])
+                    stats["B_exact" if c["exact"] else "B_tolerance"] += 1
+                if b_bad:
+                    ctx.violation(extra, "%s (%s)" % (b_bad, where))
+                    continue            # the embedding of a wrong matrix is not judged separately
+                eig_lines.append("EIG %d %s" % (N, " ".join(x.hex() for row in Bref for x in row)))
+                eig_idx.append(info)
+        # tolerance stream: embedding vs top-d eigenpairs of classical MDS of the MODEL geodesics
         if eig_lines:
             eres = run_harness(ctx, exes.iso[b_run], eig_lines)
             for info, r in zip(eig_idx, eres):
@@ -1319,9 +1488,11 @@ def check_embedding(ctx, info, r, stats):
     stats["emb_checked"] += 1
     stats["emb_worst_rel"] = max(stats["emb_worst_rel"], worst / scale)
     if worst > 1e-8 * scale * N:
-        ctx.violation(strip(c), "Isomap embedding is not the classical-MDS solution of the matrix it built: Gram "
-                                "matrix differs from the top-%d eigenpairs by %.3g (scale %.3g) (%s)" % (
-                                    d, worst, scale, info["tag"]))
+        g = info["graph"]
+        ctx.violation(dict(strip(c), captured_neighbors=g["nbrs"], captured_landmarks=g["lm"]),
+                      "Isomap embedding is not the classical-MDS solution of the shortest-path lengths of its "
+                      "neighbourhood graph: Gram matrix of the embedding differs from the top-%d eigenpairs of "
+                      "-1/2 J S J (model geodesics) by %.3g (scale %.3g) (%s)" % (d, worst, scale, info["tag"]))
 
 
 # ----------------------------------------------------------------------------------------------- large N
@@ -1441,7 +1612,8 @@ def evaluate_depth(ctx, exes, cases, stats):
 def new_stats():
     return {"model_rows": 0, "traces": 0, "trace_agree": 0, "trace_disagree": 0, "trace_calls": 0,
             "skipped_runs": 0, "big_rows_checked": 0, "tolerance_matrices": 0, "old_f4_model_differs": 0, "iso": {}, "iso_exceptions": 0,
-            "iso_disconnected": 0, "B_exact": 0, "B_tolerance": 0, "emb_checked": 0, "emb_degenerate": 0,
+            "iso_disconnected": 0, "iso_graph_source": {}, "iso_complete_graph": 0,
+            "iso_geodesic_call_not_observed": 0, "B_exact": 0, "B_tolerance": 0, "emb_checked": 0, "emb_degenerate": 0,
             "emb_oracle_bad": 0, "emb_worst_rel": 0.0, "oracle_contract_worst": 0.0,
             "heap_decrease_key_situations": {k: 0 for k in HEAP_CLASSES}, "heap_aimed_candidates": 0,
             "large_rows_checked": 0}
@@ -1532,11 +1704,13 @@ def run(ctx):
     big_cases = []
     if quick:
         cases += gen_sp_cases(rng, 260, sizes, big=(48, 64))
-        iso_cases = gen_iso_cases(rng, 24, 8, 16)
+        cases += gen_complete_cases(rng, 40)
+        iso_cases = gen_iso_cases(rng, 24, 8, 16) + gen_iso_special(rng, 14, 4)
     else:
         cases += gen_sp_cases(rng, 2000, sizes * 2 + [40, 48, 64], big=(64, 96, 128))
         cases += enum_small_cases()
-        iso_cases = gen_iso_cases(rng, 200, 60, 120, big=True)
+        cases += gen_complete_cases(rng, 300, sizes=(2, 3, 3, 4, 4, 5, 6, 8, 8, 12, 16, 24, 32, 48))
+        iso_cases = gen_iso_cases(rng, 200, 60, 120, big=True) + gen_iso_special(rng, 120, 40)
         for N in (200, 256, 400):
             big_cases.append(rescale(rng, add_landmarks(rng, gen_knn(rng, N, rng.choice([6, 8, 10]), 2, 128,
                                                                      clusters=rng.random() < 0.5))))
@@ -1584,12 +1758,13 @@ def run(ctx):
             if ctx.has_violation():
                 break
             extra = gen_sp_cases(rng, 260 if quick else 1000, small if rnd < 2 else sizes)
+            extra += gen_complete_cases(rng, 60 if quick else 200)
             searched += len(extra)
             n += evaluate_sp(ctx, exes, extra, stats)
             if ctx.has_violation():
                 break
         if not ctx.has_violation():
-            n += evaluate_iso(ctx, exes, gen_iso_cases(rng, 60, 20, 40), stats)
+            n += evaluate_iso(ctx, exes, gen_iso_cases(rng, 60, 20, 40) + gen_iso_special(rng, 60, 20), stats)
     ctx.note("wall clock: coq %.0f s, extraction %.0f s, all builds done after %.0f s, evaluation %.0f s" % (
         t_coq, t_extract, t_build, time.time() - t0 - t_build))
     allc = sp_cases + iso_cases + big_cases + generic_cases + depth_cases
@@ -1611,7 +1786,13 @@ def run(ctx):
             "metric_weights": sum(1 for c in sp_cases if c.get("metric")),
             "tie_free": sum(1 for c in sp_cases if c.get("tiefree")),
             "K0": sum(1 for c in sp_cases if c["nbrs"] and not c["nbrs"][0]),
-            "mixed_magnitudes_in_one_table": sum(1 for c in sp_cases if c.get("mixmag"))}
+            "mixed_magnitudes_in_one_table": sum(1 for c in sp_cases if c.get("mixmag")),
+            "complete_graph_k=N-1": sum(1 for c in sp_cases if c["N"] > 1 and c["nbrs"] and all(
+                set(r[:len(c["nbrs"][0])]) | {u} == set(range(c["N"])) for u, r in enumerate(c["nbrs"]))),
+            "non_metric_or_asymmetric_table_generators": sum(1 for c in sp_cases + iso_cases
+                                                             if c.get("table") not in (None, "l1")),
+            "embed_requested_k=N-1": sum(1 for c in iso_cases if c["k"] == c["N"] - 1),
+            "embed_requested_k=N-2": sum(1 for c in iso_cases if c["k"] == c["N"] - 2)}
     mag_hist = {}
     for c in allc:
         if c.get("kind") == "iso" or c.get("kind") == "big":
